@@ -10,6 +10,7 @@ CONSTANTS
   Delay = 2
   Known = {"F14"}
   F1Fixed = TRUE
+  Idc <- MCIdc
   Parties = 2
 VIEW View
 INVARIANTS
